@@ -1,6 +1,7 @@
 package harness
 
 import (
+	"reflect"
 	"bytes"
 	"context"
 	"errors"
@@ -202,6 +203,36 @@ type refOpts struct {
 	sinkLogger int
 	// viaFile: the document is loaded from a file with Load(path), not handed to Unmarshal
 	viaFile bool
+	// aliasGroups: the document is decoded by the real loader and the configuration is then re-assembled
+	// the way a provider written in Go would hold it - every group that occurs with the same content in
+	// several users is ONE value (its rule and service slices shared, with spare capacity) - and handed
+	// to the Loader through its Config channel.  Same policy, different ownership of the memory.
+	aliasGroups bool
+}
+
+// aliasedGroups rewrites c so that groups of equal content share their slices.
+func aliasedGroups(c config.ServerConfig) config.ServerConfig {
+	var canon []config.Group
+	for ui := range c.Users {
+		for gi, g := range c.Users[ui].Groups {
+			found := -1
+			for k := range canon {
+				if reflect.DeepEqual(canon[k], g) {
+					found = k
+					break
+				}
+			}
+			if found < 0 {
+				g.Commands = append(make([]config.Command, 0, len(g.Commands)+5), g.Commands...)
+				g.Services = append(make([]config.Service, 0, len(g.Services)+5), g.Services...)
+				canon = append(canon, g)
+				// DeepEqual compares contents, not capacity: later occurrences still match
+				found = len(canon) - 1
+			}
+			c.Users[ui].Groups[gi] = canon[found]
+		}
+	}
+	return c
 }
 
 func startRef(cfg cfggen.Config, o refOpts) (*refEnv, error) {
@@ -240,6 +271,15 @@ func startRefDoc(doc []byte, o refOpts) (*refEnv, error) {
 			return nil, fmt.Errorf("HARNESS-BUG: syslog socket: %v", err)
 		}
 		e.syslogd, ro.Syslog = sd, sd.w
+	}
+	if o.aliasGroups {
+		l := newDocLoader(o.format)
+		if err := l.Unmarshal(doc); err != nil {
+			return nil, err
+		}
+		feed := &chanUM{ch: make(chan config.ServerConfig, 1)}
+		feed.ch <- aliasedGroups(<-l.Config())
+		ro.UM = feed
 	}
 	st, err := refsrv.New(doc, ro)
 	if err != nil {
